@@ -7,46 +7,46 @@ TB = ("Trusted: Coq 8.16.1 kernel (vm_compute, no native_compute, no axioms: eve
       "and implementation on the same cases; translators for generated data. Modelled not verified: CPython, NumPy/JAX/TF, typeguard, beartype. ")
 
 P = {
- "C01": dict(text="Theorems (unbounded rank/size/history) about the executable model of _check_dims/_check_shape/__instancecheck_str__: slices partition the shape, the walk decides the declarative axis semantics, broadcasting is the lub. The model is tied to the code by a differential correspondence on generated (history, dim string, value) triples incl. exact memo contents.",
-             tech="Coq proof over executable Gallina model + differential correspondence (vm_compute) against the implementation", ref="5/C01"),
- "C02": dict(text="Theorems: greedy bind-or-compare walk accepts iff a consistent assignment exists; verdict invariant under permutation of uses. Tie: generated decorated functions run under all parameter permutations, positional/keyword, typeguard and beartype, both spellings, dataclass. Typecheckers are third-party: that clause is validated, not proved (partial).",
-             tech="Coq proof (gamma invariant, permutation invariance) + differential/metamorphic correspondence on decorated calls", ref="5/C02"),
- "C03": dict(text="Tables regenerated from source by a fail-closed translator; theorem: for all strings, table membership equals the documented hierarchy. Tie: complete enumeration of real dtypes x 34 categories x backends with an oracle independent of jaxtyping.",
-             tech="Coq proof by computation over regenerated tables + exhaustive enumeration on real libraries", ref="5/C03"),
- "C04": dict(text="Theorems: a rejected or (Exception-)raising check leaves the context memo equal to the memo before; an accepted check is idempotent. Tie: cases engineered for partial progress; model-independent oracle compares deep copies of the live memo.",
-             tech="Coq proof over the check model with explicit snapshot/restore + oracle on the implementation", ref="5/C04"),
- "C05": dict(text="Theorem by structural induction over programs of nested calls/context blocks/exits: the caller's stack is restored. Tie: random programs rendered to Python and executed; print_bindings transcripts compared.",
-             tech="Coq proof by induction over programs + generated-program correspondence", ref="5/C05"),
- "C06": dict(text="Theorem: with all three storage cells thread-local (kinds regenerated from _storage.py), every interleaving projects to the solo runs. Tie: controlled-schedule harness (sys.settrace) on the real code. threading.local itself is CPython's (partial).",
-             tech="Coq proof of non-interference over all interleavings + generated storage kinds + controlled-schedule replay", ref="5/C06"),
- "C07": dict(text="Theorems about gensym freshness, signature round trip and the wrapper event trace; tie: generated signatures x callable kinds, observing call count and argument identity. Object identity/functools.wraps are CPython's (partial).",
-             tech="Coq proof (gensym, signature pieces, event trace) + differential testing against the undecorated callable", ref="5/C07"),
- "C08": dict(text="Theorems over all rose trees: leaves are the topmost subtrees matching L, accept iff all leaves match threading the memo, PyTree[PyTree[L]] = PyTree[L]. Tie: random trees x leaf types x histories against real JAX flatten.",
-             tech="Coq proof by nested induction over trees + differential correspondence", ref="5/C08"),
- "C09": dict(text="Theorems over all trees: bind-then-equal, composition fold = nested compose, prefix and suffix checks are exact (greedy cut sound and complete). Tie: triples of random trees, all four forms, structure strings.",
-             tech="Coq proof over tree algebra + differential correspondence with jax.tree_util", ref="5/C09"),
- "C10": dict(text="Theorem: strip(xform t) = t for every AST and the additions are exactly import + innermost/outermost decorators. Tie: translation validation of the real transformer on stdlib/site-packages files and generated modules.",
-             tech="Coq proof over a generic AST model + per-file translation validation", ref="5/C10"),
- "C11": dict(text="Theorems: should_instrument = component-prefix; instrumented iff a live hook matched at first import. Tie: subprocess histories over a generated package forest with spy typecheckers.",
-             tech="Coq proof over string/meta_path model + history correspondence in subprocesses", ref="5/C11"),
- "C12": dict(text="Theorems: flags reset after any op with any single fault; probe verdict is a function of (value, annotation, bindings). Tie: exhaustive fault catalogue + random histories then probes.",
-             tech="Coq proof over fault model + exhaustive fault enumeration on the implementation", ref="5/C12"),
- "C13": dict(text="Theorems: error raised iff reject, blamed parameter is the first failing one, reported bindings equal the live memo. Tie: ill-typed generated calls, message parsed and compared with live memo captured by a spy.",
-             tech="Coq proof over wrapper error path + message oracle on the implementation", ref="5/C13"),
+ "C01": dict(text="Theorems (all ranks, sizes, histories) about the executable model of _check_dims/_check_shape/__instancecheck_str__: an accepted check narrows the set of consistent axis assignments by exactly the documented meaning of the dim string (gamma m' = gamma m ∩ use_sat), a rejected one means no consistent assignment satisfies it, AnnotationError iff an evaluated symbolic axis mentions an unbound name; slices partition the shape; broadcasting is the lub. Tie: differential correspondence (model evaluated inside Coq by vm_compute) on sessions of checks incl. the exact memo after every check; memo-only disagreements are extended by follow-up checks into a wrong verdict.",
+             tech='Coq proof over executable Gallina model + differential correspondence (vm_compute) with failing-input search', ref="11/C01"),
+ "C02": dict(text="Theorems: a non-raising walk from a fresh context accepts iff ONE assignment satisfies every use; verdict invariant under permutation of the uses; the wrapper's second pass re-walks accepted uses without changing anything, so call_new succeeds iff a consistent assignment exists. Tie: generated decorated functions under all admissible parameter permutations, positional/keyword, typeguard and beartype, both spellings, dataclass, half of them after unrelated failing/raising PyTree checks. The typecheckers themselves are third-party: that clause is validated, not proved.",
+             tech='Coq proof (gamma invariant, permutation invariance, two-pass lemma) + differential/metamorphic correspondence on decorated calls', ref="11/C02"),
+ "C03": dict(text='Category tables regenerated from the source by a fail-closed translator; theorems: for every string, table membership equals the documented hierarchy; inclusions/disjointness; verdict is a function of the extracted dtype name; user categories = string equality or anchored-prefix regex match (Brzozowski derivatives). Tie: complete enumeration of the dtypes the installed libraries can produce x 34 categories x NumPy/JAX(tracers, keys)/TensorFlow/duck backends with an oracle independent of jaxtyping.',
+             tech='Coq proof by computation over regenerated tables + exhaustive enumeration on real libraries', ref="11/C03"),
+ "C04": dict(text='Theorems: any non-accepting array check (mismatch at any axis, any exception class) returns the context stack unchanged; accepting checks are idempotent; a non-accepting PyTree check restores axes and structure names wherever it fails. The rollback STRUCTURE (except BaseException + restore of four copies, restore on mismatch) is read from the source AST by a translator and instantiates a parametrised check (model/SourceShape.v): with the structure it restores, without it a refutation witness is proved. Tie: engineered partial-progress cases + model-independent deep-copy oracle, half of them after a fault prelude.',
+             tech='Coq proof over the check model + source-shape translator (gen/Brackets.v) + oracle on the implementation', ref="11/C04"),
+ "C05": dict(text='Theorem by nested induction over programs of calls (3 styles), context blocks, try, manual checks and exits (return / Exception / BaseException / generator creation / non-binding / failing parameter check): every block leaves the whole stack as it found it, top level is stateless, a generator call keeps no context. The push/pop bracket structure (push directly followed by try/finally pop without suspension, unconditional pop) is read from the source AST. Tie: catalogue + random programs executed with real decorated functions; whole traces compared with the model.',
+             tech='Coq proof by induction over programs + source-shape translator + generated-program correspondence', ref="11/C05"),
+ "C06": dict(text="Theorem: for any number of threads and EVERY schedule of atomic accessor steps, each thread computes what it computes alone, given that the three storage cells are thread-local (kinds regenerated from _storage.py; shared cells are refuted by three proved schedules). Tie: deterministic scheduler on the real code (sys.settrace, park at every line of four jaxtyping files), systematic single-preemption + PRNG schedules, annotation objects shared between threads, threads started from copied contextvars contexts. threading.local itself is CPython's.",
+             tech='Coq non-interference proof over all interleavings + generated storage kinds + controlled-schedule replay', ref="11/C06"),
+ "C07": dict(text="Theorems: _gensym is fresh for any set of taken names (pigeonhole) and terminates; all generated names are pairwise distinct and distinct from parameters and function name; parameter-list round trip for every well-formed signature; the body runs once iff the call binds and is well-typed. Tie: generated signatures (5 parameter kinds, defaults, names colliding with generated names, the function's name and every identifier used inside _decorator.py, also as **kwargs keys) x def/lambda/async/generator x descriptor kinds x both checkers against the undecorated twin; synthesised def text compared with the model. Object identity and functools.wraps are CPython's.",
+             tech='Coq proof (gensym, signature pieces, event trace) + differential testing against the undecorated callable', ref="11/C07"),
+ "C08": dict(text='Theorems over all rose trees: a check touches the top context only; a rejected tree restores; for leaf types without arrays PyTree[L] accepts iff all leaves (topmost matching subtrees, else non-containers) match, PyTree[PyTree[L]] = PyTree[L], PyTree[Any] accepts everything. Tie: random trees x 17 leaf types x prior bindings against real JAX flatten, verdict and all bindings, half of the workers after a fault prelude.',
+             tech='Coq proof by nested induction over trees + differential correspondence', ref="11/C08"),
+ "C09": dict(text="Theorems over all trees: treedef equality is identity; composition associative, the code's fold = nested compose; composite / prefix / suffix checks exact (greedy cut sound and complete); unbound name raises iff some name unseen; validate_structure <=> documented grammar. Tie: triples of random trees x 13 forms (int leaves and array leaves incl. unions whose first alternative rolls the context back) vs an independent reference and the model; structure strings.",
+             tech='Coq proof over tree algebra + differential correspondence with jax.tree_util', ref="11/C09"),
+ "C10": dict(text='Theorem: strip(xform t) = t for every AST; decorator template (from the source) closed for every hash; import position. Tie: translation validation of the real transformer per program (fresh and re-used transformer instances) on the stdlib / site-packages and generated modules: independent strip + ast.dump with attributes, compile(), docstring, __future__ flags; model AST equality evaluated in Coq on small files and generated modules.',
+             tech='Coq proof over a generic AST model + per-file translation validation', ref="11/C10"),
+ "C11": dict(text='Theorems: should_instrument <=> dotted-component prefix; first import takes the first live hook; loaded modules never change; uninstall removes exactly its hook (all histories); the pytest option = install_import_hook(stripped comma items but the last, last item) incl. the already-imported error; the IPython magic keeps at most one jaxtyping transformer and every cell gets the checker of the latest magic. Tie: histories in fresh interpreters over a generated forest with spy typecheckers; real pytest runs with --jaxtyping-packages; real IPython shells; pairs of runs with bytecode caching on.',
+             tech='Coq proof over string/meta_path/front-end models + history correspondence in subprocesses', ref="11/C11"),
+ "C12": dict(text='Theorems: after any check from a clean store - accept, reject or raise of any class anywhere - flatten mode is off and no leaf position is set; array verdict is a function of (value, annotation, top frame, flags). The try/finally brackets around both transient flags are read from the source AST. Tie: exhaustive single-fault catalogue (26 ops x fault points x Exception/BaseException x checker x in/out of context) + random histories, then 10 probes.',
+             tech='Coq proof over fault model + source-shape translator + exhaustive fault enumeration on the implementation', ref="11/C12"),
+ "C13": dict(text='Theorems: TypeCheckError iff a walk rejects; stage and blamed parameter = first failing use given those before it; reported bindings = the live memo, which contains nothing of the failed check (rollback structure read from the source); AnnotationError passes through. Tie: ill-typed generated calls incl. unions, {arg} axes and PyTree parameters with several array leaves; message parsed; bindings compared with the live memo (spy), with a fresh context after exactly the passed checks, and with the model.',
+             tech='Coq proof over wrapper error path + source-shape translator + message oracles on the implementation', ref="11/C13"),
  "C14": dict(text="Theorems for all strings: whitespace insignificant, modifier order free (any length), name= ignored, '...' = '*_', repeated/illegal forms rejected and only those. Parser termination by structural recursion (kernel-checked). Tie: exhaustive tokens (<=4 modifiers x 9 bases x doc= placement) and sampled sequences compared with the real parser; model-independent order/whitespace oracles.",
-             tech="Coq proof over executable parser model + exhaustive token enumeration against the implementation", ref="5/C14"),
+             tech="Coq proof over executable parser model + exhaustive token enumeration against the implementation", ref="11/C14"),
  "C15": dict(text="Theorems: nesting law via parse concatenation and dtype intersection, scalar ladder over generated tables. Tie: both sides of each law built with the real library and compared on probes.",
-             tech="Coq proof + metamorphic comparison on the implementation", ref="5/C15"),
+             tech="Coq proof + metamorphic comparison on the implementation", ref="11/C15"),
  "C16": dict(text="Theorems: tree-path labels are injective and disjoint from plain names, hence per-position independence; misuse raises. Tie: trees with per-leaf sizes.",
-             tech="Coq proof over label model + differential correspondence", ref="5/C16"),
+             tech="Coq proof over label model + differential correspondence", ref="11/C16"),
  "C17": dict(text="Theorem: the check model observes only isinstance/shape/dtype, so equal (type, shape, dtype) give equal outcomes. Tie: logging duck arrays and jit/vmap/grad/eval_shape vs eager. JAX tracing is JAX's (partial).",
-             tech="Coq non-interference proof over the check model + access-log and tracing correspondence", ref="5/C17"),
+             tech="Coq non-interference proof over the check model + access-log and tracing correspondence", ref="11/C17"),
  "C18": dict(text="Theorem: cache invariant (tag determines instrumentation) over all histories for get_code-scoped patching; refutation witness for exec_module-scoped patching. Tie: multi-run histories in subprocesses over one cache directory.",
-             tech="Coq invariant proof over cache model + history replay on CPython", ref="5/C18"),
+             tech="Coq invariant proof over cache model + history replay on CPython", ref="11/C18"),
  "C19": dict(text="Theorems: switch parser accepts exactly the generated spellings; disabled wrapper trace is [Body]. Tie: exhaustive switch table + generated callables under toggle schedules vs the undecorated callable.",
-             tech="Coq proof over generated config table + exhaustive switch enumeration", ref="5/C19"),
+             tech="Coq proof over generated config table + exhaustive switch enumeration", ref="11/C19"),
  "C20": dict(text="Theorems: flat annotations round-trip through the reducer; nested/cloudpickle cases refuted or proved after repair. Tie: verdict vectors of original-before/after and reloaded, same process and subprocess.",
-             tech="Coq proof over reducer model + metamorphic verdict-vector comparison", ref="5/C20"),
+             tech="Coq proof over reducer model + metamorphic verdict-vector comparison", ref="11/C20"),
 }
 
 
@@ -60,7 +60,7 @@ def main():
                                thorough_cmd="./check %s --tier thorough" % pid,
                                evidence_file="/verif/evidence/%s.json" % pid,
                                replay_cmd_template="./check %s --replay {path}" % pid, engine="coq+correspondence",
-                               level_claimed=dict(category="proof", text=p["text"], design_ref="DESIGN.md section " + p["ref"]),
+                               level_claimed=dict(category="proof", text=p["text"], design_ref="DESIGN.md section " + p["ref"].split("/")[0] + " (row " + p["ref"].split("/")[1] + ") and section 5." + str(int(p["ref"].split("/")[1][1:]))),
                                level_note=TB + p.get("note", ""), technique=p["tech"]))
         else:
             na.append(dict(property_id=pid, reason="check not built yet in this session (planned, see DESIGN.md section 5/%s); not claimed until its harness exists" % pid))
